@@ -661,3 +661,79 @@ Proof.
     apply andb_true_iff in Hall. destruct Hall as [Hx Hr].
     split; [apply wf_treeb_sound; exact Hx | apply IHr; exact Hr].
 Qed.
+
+(* ------------------------------------------------------------------ well-formedness survives mutations *)
+
+Lemma wf_all_forall : forall ch,
+  (fix all (l : list tree) : Prop := match l with [] => True | x :: r => wf_tree x /\ all r end) ch <-> Forall wf_tree ch.
+Proof.
+  induction ch; simpl; split; intros H; auto.
+  - destruct H as [H1 H2]. constructor; [exact H1 | apply IHch; exact H2].
+  - inversion H; subst. split; [assumption | apply IHch; assumption].
+Qed.
+
+Lemma wf_tree_iff : forall t, wf_tree t <-> node_ok t /\ Forall wf_tree (t_ch t).
+Proof. destruct t as [c i k s ch]. simpl. rewrite wf_all_forall. tauto. Qed.
+
+Lemma set_ch_fields : forall t ch, t_cls (set_ch t ch) = t_cls t /\ t_key (set_ch t ch) = t_key t /\ t_ch (set_ch t ch) = ch.
+Proof. destruct t; simpl; auto. Qed.
+
+Lemma upd_nth_map : forall (A B : Type) (h : A -> B) (g : A -> A) l i,
+  (forall x, nth_error l i = Some x -> h (g x) = h x) -> map h (upd_nth i g l) = map h l.
+Proof.
+  induction l as [|x r IH]; intros i H; [destruct i; reflexivity|].
+  destruct i; simpl.
+  - rewrite (H x eq_refl). reflexivity.
+  - rewrite IH; auto.
+Qed.
+
+Lemma upd_nth_forall : forall (A : Type) (P : A -> Prop) (g : A -> A) l i,
+  Forall P l -> (forall x, nth_error l i = Some x -> P (g x)) -> Forall P (upd_nth i g l).
+Proof.
+  induction l as [|x r IH]; intros i HF H; [destruct i; constructor|].
+  inversion HF; subst. destruct i; simpl; constructor; auto.
+Qed.
+
+Lemma upd_nth_nth : forall (A : Type) (g : A -> A) l i x, nth_error l i = Some x ->
+  nth_error (upd_nth i g l) i = Some (g x).
+Proof.
+  induction l as [|y r IH]; intros i x H; destruct i; simpl in *; try discriminate.
+  - injection H as <-. reflexivity.
+  - auto.
+Qed.
+
+Lemma replace_at_top : forall p t n n', addr t p = Some n -> t_cls n' = t_cls n -> t_key n' = t_key n ->
+  t_cls (replace_at t p n') = t_cls t /\ t_key (replace_at t p n') = t_key t.
+Proof.
+  destruct p as [|i r]; intros t n n' Ha Hc Hk; simpl in *.
+  - injection Ha as <-. auto.
+  - destruct (set_ch_fields t (upd_nth i (fun x => replace_at x r n') (t_ch t))) as [H1 [H2 _]]. auto.
+Qed.
+
+Lemma wf_replace : forall p t n n', wf_tree t -> addr t p = Some n -> wf_tree n' ->
+  t_cls n' = t_cls n -> t_key n' = t_key n ->
+  wf_tree (replace_at t p n') /\ addr (replace_at t p n') p = Some n'.
+Proof.
+  induction p as [|i r IH]; intros t n n' Hwf Ha Hn' Hc Hk; simpl in Ha.
+  - simpl. auto.
+  - destruct (nth_error (t_ch t) i) as [c|] eqn:Hn; [|discriminate].
+    destruct (IH c n n' (wf_child _ _ _ Hwf Hn) Ha Hn' Hc Hk) as [IHwf IHaddr].
+    destruct (replace_at_top r c n n' Ha Hc Hk) as [Tc Tk].
+    set (g := fun x => replace_at x r n'). simpl. fold g.
+    destruct (set_ch_fields t (upd_nth i g (t_ch t))) as [F1 [F2 F3]].
+    split.
+    + apply wf_tree_iff. rewrite F3. apply wf_tree_iff in Hwf. destruct Hwf as [[N1 [N2 N3]] HF]. split.
+      * unfold node_ok. rewrite F1, F3.
+        assert (Hkeys : keys_of (upd_nth i g (t_ch t)) = keys_of (t_ch t)).
+        { unfold keys_of. apply upd_nth_map. intros x Hx. rewrite Hn in Hx. injection Hx as <-. exact Tk. }
+        rewrite Hkeys. split; [|split].
+        -- intros _. apply N1. intros E. rewrite E in Hn. destruct i; discriminate.
+        -- exact N2.
+        -- intros c' Hin.
+           assert (HFid : Forall (fun x => is_identifiable (t_cls x) = false) (upd_nth i g (t_ch t))).
+           { apply upd_nth_forall; [apply Forall_forall; exact N3|].
+             intros x Hx. rewrite Hn in Hx. injection Hx as <-. unfold g. rewrite Tc. apply N3. eapply nth_error_In; eauto. }
+           rewrite Forall_forall in HFid. apply HFid. exact Hin.
+      * apply upd_nth_forall; [exact HF|]. intros x Hx. rewrite Hn in Hx. injection Hx as <-. exact IHwf.
+    + rewrite F3, (upd_nth_nth _ g _ _ _ Hn). exact IHaddr.
+Qed.
